@@ -2,7 +2,7 @@
    decl := N id parent name | S id ns name | E id ns name | G id ns name | F id ns name | L id name   (ns/parent: - for none)
    Output: <kind>:<id>=<name> ... for every symbol, ordered by kind and id *)
 From Coq Require Import List NArith Bool String Ascii.
-From RV Require Import Wire NameGen GenNames.
+From RV Require Import Wire NameGen GenNames Scopes.
 Import ListNotations.
 Local Open Scope string_scope.
 
@@ -46,22 +46,89 @@ Definition sym_leb (a b : sym * string) : bool :=
 Fixpoint insert_s (x : sym * string) (l : list (sym * string)) :=
   match l with [] => [x] | y :: r => if sym_leb x y then x :: l else y :: insert_s x r end.
 
+(* ---- the leading `::` of emitted paths (Scopes.emit against NameMap::get_name_qualified) ---- *)
+Fixpoint split_bar (w : list string) (acc : list string) : list string * list string :=
+  match w with
+  | [] => (rev_append acc [], [])
+  | x :: r => if String.eqb x "|" then (rev_append acc [], r) else split_bar r (x :: acc)
+  end.
+
+Record extras := mkX { x_vals : list (N * string); x_members : list string; x_methods : list N }.
+Fixpoint parse_extras (fuel : nat) (w : list string) : option extras :=
+  match fuel with
+  | O => None
+  | S fuel =>
+      match w with
+      | [] => Some (mkX [] [] [])
+      | "V" :: ns :: name :: r => ns <- parse_N ns ;; x <- parse_extras fuel r ;; Some (mkX ((ns, name) :: x_vals x) (x_members x) (x_methods x))
+      | "M" :: name :: r => x <- parse_extras fuel r ;; Some (mkX (x_vals x) (name :: x_members x) (x_methods x))
+      | "T" :: f :: r => f <- parse_N f ;; x <- parse_extras fuel r ;; Some (mkX (x_vals x) (x_members x) (f :: x_methods x))
+      | _ => None
+      end
+  end.
+
+Definition sym_eqb (a b : sym) : bool := N.eqb (fst a) (fst b) && N.eqb (snd a) (snd b).
+Definition name_of (names : list (sym * string)) (s : sym) : string :=
+  match find (fun p => sym_eqb (fst p) s) names with Some p => snd p | None => "" end.
+
+(* a namespace as the list of its generated names, innermost first *)
+Fixpoint ns_path (fuel : nat) (ds : list decl) (names : list (sym * string)) (o : option N) : list string :=
+  match fuel with
+  | O => []
+  | S f =>
+      match o with
+      | None => []
+      | Some id =>
+          match find (fun d => N.eqb (d_kind d) 0 && N.eqb (d_id d) id) ds with
+          | Some d => name_of names (0%N, id) :: ns_path f ds names (d_scope d)
+          | None => []
+          end
+      end
+  end.
+
+Fixpoint path_eqb (a b : list string) : bool :=
+  match a, b with
+  | [], [] => true
+  | x :: r, y :: t => String.eqb x y && path_eqb r t
+  | _, _ => false
+  end.
+
+Definition anchors (ds : list decl) (x : extras) (names : list (sym * string)) (locals : list (N * string)) : list string :=
+  let fuel := S (List.length ds) in
+  let pathof := ns_path fuel ds names in
+  let is_ns := fun p => existsb (fun d => N.eqb (d_kind d) 0 && path_eqb (pathof (Some (d_id d))) p) ds in
+  let has := fun p n =>
+    existsb (fun d => negb (N.eqb (d_kind d) 0) && String.eqb (name_of names (d_kind d, d_id d)) n && path_eqb (pathof (d_scope d)) p) ds
+    || existsb (fun v => String.eqb (snd v) n && path_eqb (pathof (Some (fst v))) p) (x_vals x) in
+  let inner := fun n => in_str n (map snd locals ++ x_members x ++ map (fun f => name_of names (4%N, f)) (x_methods x)) in
+  let sites := all_scopes ds in
+  map (fun e : sym * string =>
+         let '((k, i), leaf) := e in
+         let t := match find (fun d => sym_eqb (d_kind d, d_id d) (k, i)) ds with Some d => pathof (d_scope d) | None => [] end in
+         let p := Scopes.emit is_ns has inner [] t leaf in     (* the flag depends on the use site only through `hidden` *)
+         "Q:" ++ show_N k ++ ":" ++ show_N i ++ "=" ++
+         String.concat "" (map (fun u => if Scopes.p_abs (Scopes.emit is_ns has inner (pathof u) t leaf) then "1" else "0") sites))
+      (filter (fun e : sym * string => negb (N.eqb (fst (fst e)) 0)) (fold_right insert_s [] names)).
+
 Definition run_top (line : string) : string :=
   if String.prefix "R " line then "CLEAN" else     (* emitted-text probes: the property itself is the expected answer *)
+  if String.prefix "U " line then "USES-SAME" else (* re-read of the emitted text: the property itself is the expected answer *)
   match split "#" line with
   | head :: _ =>
       match words head with
-      | t :: w =>
+      | t :: w0 =>
+          let '(w, xw) := split_bar w0 [] in
           let reserved := if String.eqb t "m" then msl_reserved else hlsl_reserved in
-          match parse_decls (S (List.length w)) w with
-          | Some (ds, locals) =>
+          match parse_decls (S (List.length w)) w, parse_extras (S (List.length xw)) xw with
+          | Some (ds, locals), Some x =>
               match build reserved (map (fun sc => entries_of sc ds) (all_scopes ds)) locals with
               | Some (globals, ls) =>
                   unwords (map (fun '((k, i), n) => show_N k ++ ":" ++ show_N i ++ "=" ++ n) (fold_right insert_s [] globals)
-                           ++ map (fun '(i, n) => "L:" ++ show_N i ++ "=" ++ n) ls)
+                           ++ map (fun '(i, n) => "L:" ++ show_N i ++ "=" ++ n) ls
+                           ++ anchors ds x globals ls)
               | None => "OUT-OF-FUEL"
               end
-          | None => "PARSE-ERROR"
+          | _, _ => "PARSE-ERROR"
           end
       | _ => "PARSE-ERROR"
       end
